@@ -17,26 +17,41 @@ RULE = (
     "Population.from_swc, len, p[i] for i in [-n-2, n+2), p[a:b:c], iteration, Populations.from_swc (intersect on / "
     "off), ps[i], iteration over rows, to_population(), ChainTrees over any members incl. empty ones, Population.map "
     "(module-level function), PopulationTransform. Oracle: a counting wrapper around builtins.open records reads per "
-    "path; the model is an independent os.walk listing (the documented find_swcs enumeration) plus, per loader, the "
-    "set of requested files. Invariant after every step: reads(path) == number of loaders that were asked for that "
+    "path; the model is the population's own listing of its files - checked against an independent os.walk: exactly the "
+    "'.swc' files under the root, each once (files whose extension equals '.swc' only up to case may or may not be "
+    "members) - plus, per loader, the set of requested files. Invariant after every step: reads(path) == number of loaders that were asked for that "
     "file (so: never before it is requested, never twice); a container's construction may read its first file only. "
     "p[i] is the tree of file i (source and node count), p[-k] == p[n-k], slices agree with range(), out of range "
     "raises IndexError; Populations rows hold same-relative-path files and its length is the intersection size (or "
     "the shortest member); chain length = sum of member lengths and chain[i] is the i-th tree of the concatenation; "
-    "map returns one result per tree in order. Non-trivial: >= 2 roots with >= 3 files, a nested and an empty folder, "
+    "map returns one result per tree in order, also in progress-bar mode with the first tree by far the slowest. Non-trivial: >= 2 roots with >= 3 files, a nested and an empty folder, "
     "a repeated access, a negative index and a chain over >= 2 non-empty members."
 )
 ASSUMPTIONS = [
-    "'i-th file' means the documented Population.find_swcs enumeration (os.walk order, extension match)",
+    "'i-th file' means the i-th entry of the population's own listing of its files (Population.find_swcs / trees.swcs), which must consist of exactly the '.swc' files under the root, each once; files whose extension equals '.swc' only up to case may or may not be members",
     "containers built over the same loader share its cache (to_population / ChainTrees chain the members' loaders)",
 ]
 
 POOL = ["a.swc", "b.swc", "c.swc", "d.swc", "sub/a.swc", "sub/e.swc", "sub/deep/f.swc", "sub2/g.swc"]
 NOISE = ["notes.txt", "sub/readme.md", "h.eswc", "sub2/x.swc.bak"]
 EMPTY = ["empty1", "sub/empty2"]
+# files whose extension differs from '.swc' only in case: whether they belong to a population is not fixed by the statement
+# (the documented match is on the extension); they hold valid neurons of their own, and every clause is evaluated under
+# either reading
+CASEVAR = ["a.SWC", "sub/e.SWC", "c.Swc"]
+os.environ.setdefault("TQDM_DISABLE", "1")  # Population.map(verbose=True) draws a progress bar
 
 
 def _chain_len(tree):  # module level: Population.map pickles it
+    return len(tree)
+
+
+def _chain_len_slow(tree, slow_n=-1):
+    """The tree with `slow_n` nodes takes much longer than the others (workers finish out of order)."""
+    if len(tree) == slow_n:
+        import time
+
+        time.sleep(0.6)
     return len(tree)
 
 
@@ -45,6 +60,7 @@ def init_strategy(tier):
         "files": st.lists(st.sampled_from(POOL), unique=True, max_size=8),
         "noise": st.lists(st.sampled_from(NOISE), unique=True, max_size=2),
         "empty": st.lists(st.sampled_from(EMPTY), unique=True, max_size=2),
+        "casevar": st.one_of(st.just([]), st.just([]), st.lists(st.sampled_from(CASEVAR), unique=True, max_size=2)),
     })
     return st.lists(root, min_size=1, max_size=3)
 
@@ -80,7 +96,7 @@ class _State:
         for r, spec in enumerate(layout):
             root = os.path.join(self.base, f"root{r}")
             os.makedirs(root)
-            for rel in spec["files"]:
+            for rel in list(spec["files"]) + list(spec.get("casevar", [])):
                 k += 1
                 path = os.path.join(root, rel)
                 os.makedirs(os.path.dirname(path), exist_ok=True)
@@ -132,12 +148,32 @@ class _State:
         shutil.rmtree(self.base, ignore_errors=True)
 
     # -- model helpers
-    def listing(self, root, relpath=False):
+    def listing(self, root, relpath=False, may=False):
+        """Files that must belong to the population of `root` (extension '.swc'); with may=True also those whose
+        membership the statement leaves open (extension equal up to case)."""
         out = []
         for r, _, files in os.walk(root):
             rr = os.path.relpath(r, root) if relpath else r
-            out.extend(os.path.join(rr, f) for f in files if os.path.splitext(f)[-1] == ".swc")
+            out.extend(os.path.join(rr, f) for f in files
+                       if os.path.splitext(f)[-1] == ".swc" or (may and os.path.splitext(f)[-1].lower() == ".swc"))
         return out
+
+    def members(self, ctx, real, root, what):
+        """The enumeration 'i-th file' refers to: the population's own listing of its files, which must consist of
+        exactly the '.swc' files under the root (plus, possibly, case variants of the extension), each once."""
+        from swcgeom.core import Population
+
+        swcs = getattr(getattr(real, "trees", None), "swcs", None)
+        if swcs is None:
+            swcs = ctx.lib("Population.find_swcs", Population.find_swcs, root)
+        paths = [os.path.abspath(x) for x in swcs]
+        must = {os.path.abspath(x) for x in self.listing(root)}
+        may = {os.path.abspath(x) for x in self.listing(root, may=True)}
+        ctx.check(len(set(paths)) == len(paths) and must <= set(paths) <= may, f"{what}/members-are-the-swc-files-under-the-root",
+                  lambda: f"listed {[os.path.relpath(x, root) for x in paths]}, '.swc' files {sorted(os.path.relpath(x, root) for x in must)}")
+        if set(paths) != must:
+            ctx.cls("case-variant-extension-taken-as-member")
+        return paths
 
     def expected_reads(self):
         exp = {}
@@ -196,8 +232,8 @@ def apply(s, name, args, ctx):
     with s:
         if name == "population":
             root = s.roots[args % len(s.roots)]
-            files = s.listing(root)
             real = ctx.lib("Population.from_swc", Population.from_swc, root)
+            files = s.members(ctx, real, root, "population")
             ld = _Loader(files)
             s.loaders.append(ld)
             c = _Container(real, [(ld, i) for i in range(len(files))], "population")
@@ -209,22 +245,31 @@ def apply(s, name, args, ctx):
             k = 1 + args[1] % len(s.roots)
             roots = s.roots[:k] if args[0] % 4 < 2 else list(reversed(s.roots))[:k]
             rels = [s.listing(r, relpath=True) for r in roots]
+            rels_may = [s.listing(r, relpath=True, may=True) for r in roots]
             real = ctx.lib("Populations.from_swc", Populations.from_swc, roots, intersect=intersect)
-            inter = set(rels[0])
-            for r in rels[1:]:
+            inter, inter_may = set(rels[0]), set(rels_may[0])
+            for r, rm in zip(rels[1:], rels_may[1:]):
                 inter &= set(r)
-            want_len = len(inter) if intersect else min(len(r) for r in rels)
-            ctx.check(len(real) == want_len, "populations/len", f"{len(real)} vs {want_len} (intersect={intersect})")
+                inter_may &= set(rm)
+            inter = {os.path.normpath(x) for x in inter}
+            inter_may = {os.path.normpath(x) for x in inter_may}
+            if any(set(a) != set(b) for a, b in zip(rels, rels_may)):
+                ctx.cls("populations-over-roots-with-case-variant-extensions")
+            lo = len(inter) if intersect else min(len(r) for r in rels)
+            hi = len(inter_may) if intersect else min(len(r) for r in rels_may)
+            ctx.check(lo <= len(real) <= hi, "populations/len", f"{len(real)} vs {lo}..{hi} (intersect={intersect})")
             ctx.check(real.num_of_populations() == len(roots), "populations/one-population-per-root", "")
             conts = []
             for d, p in zip(roots, real.populations):
                 # the library's own order of the intersection is unspecified: read it back from the loader's path list
                 paths = [os.path.abspath(x) for x in p.trees.swcs]
                 if intersect:
-                    ctx.check(sorted(os.path.relpath(x, d) for x in paths) == sorted(os.path.normpath(x) for x in inter),
+                    got = {os.path.relpath(x, d) for x in paths}
+                    ctx.check(len(got) == len(paths) and inter <= got <= inter_may and len(paths) == len(real),
                               "populations/members-are-the-intersection", lambda: f"{paths} vs {sorted(inter)} under {d}")
                 else:
-                    ctx.check(paths == [os.path.abspath(x) for x in s.listing(d)], "populations/members-are-the-listing", "")
+                    own = s.members(ctx, p, d, "populations")
+                    ctx.check(paths == own, "populations/members-are-the-listing", "")
                 ld = _Loader(paths)
                 s.loaders.append(ld)
                 c = _Container(p, [(ld, i) for i in range(len(paths))], "population")
@@ -367,10 +412,22 @@ def apply(s, name, args, ctx):
             c = pops[args % len(pops)] if not sliced else sliced[args % len(sliced)]
             if c.kind == "population-of-slice":
                 s.flags["maps_sliced"] = True
-            res = ctx.lib("Population.map", lambda: list(c.real.map(_chain_len, max_worker=2)))
+            want = [s.nodes_of[os.path.abspath(ld.files[i])] for ld, i in c.slots]
+            if args % 3 == 0 and len(want) >= 2:
+                # progress-bar mode, the first tree by far the slowest: results still come back in tree order
+                import functools
+
+                s.flags["map_verbose"] = True
+                fn = functools.partial(_chain_len_slow, slow_n=want[0])
+                import contextlib
+                import io
+
+                with contextlib.redirect_stderr(io.StringIO()):  # the progress bar
+                    res = ctx.lib("Population.map[verbose]", lambda: list(c.real.map(fn, max_worker=2, verbose=True)))
+            else:
+                res = ctx.lib("Population.map", lambda: list(c.real.map(_chain_len, max_worker=2)))
             for sl in c.slots:
                 _request(s, sl)
-            want = [s.nodes_of[os.path.abspath(ld.files[i])] for ld, i in c.slots]
             ctx.check(res == want, "map/one-result-per-tree-in-order", lambda: f"{res} vs {want}")
         elif name == "transform":
             from swcgeom.transforms import PopulationTransform, Translate
@@ -419,6 +476,10 @@ def finish(s, ctx):
         ctx.cls("map")
     if s.flags.get("maps_sliced"):
         ctx.cls("map-over-a-population-made-of-a-slice")
+    if s.flags.get("map_verbose"):
+        ctx.cls("map-with-progress-bar-and-uneven-work")
+    if any(sp.get("casevar") for sp in s.layout):
+        ctx.cls("layout-with-case-variant-extensions")
     if s.flags.get("iterated_non_prefix_slice"):
         ctx.cls("iterated-a-non-prefix-slice")
     ctx.nontrivial(sum(1 for n in nfiles if n >= 3) >= 2 and nested and empty and s.flags["repeat"]
@@ -434,5 +495,7 @@ SUBCHECKS = [
             shards_quick=8, required={"repeated-access": 40, "negative-index": 40, "chain-over>=2-members": 30,
                                       "populations": 40, "nested": 60, "has-empty-folder": 40, "roots:3": 20, "map": 10,
                                       "root-without-files": 5, "iterated-a-non-prefix-slice": 5,
-                                      "map-over-a-population-made-of-a-slice": 2}),
+                                      "map-over-a-population-made-of-a-slice": 2, "map-with-progress-bar-and-uneven-work": 3,
+                                      "layout-with-case-variant-extensions": 60,
+                                      "populations-over-roots-with-case-variant-extensions": 10}),
 ]
